@@ -35,8 +35,31 @@
    (D34, block-scope `static _Thread_local` placed in .data, is outside
    Level I: the model gives anonymous objects the unit's TLS flag.)
 
-   Three event generators (constant Mode):
+   (Fifth round.)  Two more dimensions of the object alphabet:
+     - how the TYPE of x gets complete (Unb = TRUE, family "objty"): a declarator may omit the
+       array bound (`T x[];`); the object's type is then the composite type of all file-scope
+       declarations (6.2.7p4), completed by the initializer (6.7.9p22) or, for a tentative
+       definition that stays incomplete, one element (6.9.2p2, p5); and every defining
+       declaration may carry `_Alignas(aln)` (6.7.5).  Level I keeps what chibicc keeps per
+       Obj: the size its own declarator/initializer gave it and var->align, and applies the
+       psABI array rule at emission time on the final type.  AlignAtCreation = TRUE (the rule
+       folded into var->align when the Obj is created, i.e. before the initializer completed the
+       type: seeded change C15-9) and Fixed5 = FALSE (HEAD before the fifth-round repairs: no
+       composite type - the kept Obj's own incomplete type is emitted (finding
+       C15-R5-composite-array-type); `_Alignas` ignored on block-scope statics (finding
+       C15-R5-static-local-alignas)) must be REJECTED by TLC.
+     - SCOPES (Mode = "scope"): event "F" is a function whose body nests blocks; level j of
+       `blk` declares x as an automatic object "A", the parameter "P" (level 1 only), a
+       block-scope static "BS"/"BSD" or a block-scope extern "BE"; the function refers to x
+       at nesting level `at` (after the deeper blocks are closed).  Level A: 6.2.1p4 (the inner
+       declaration hides the outer one until its block ends) and 6.2.2p4 (a block-scope extern
+       denotes the object with linkage - whatever no-linkage declaration is visible).
+       Level I: find_var's scope chain.  ReuseVisible = TRUE (a block-scope extern binds to
+       whatever declaration of the name is visible: seeded change C15-8) must be REJECTED.
+
+   Event generators (constant Mode):
      "obj"   all sequences of <= MaxLen events on one object name x
+     "scope" [file-scope declaration of x] F-event [file-scope declaration of x | reference]
      "fn"    all sequences of <= MaxLen events on one function name f
      "graph" N static inline functions: every reference digraph x every root
              assignment {none, global function, initializer before all
@@ -44,22 +67,29 @@
              InitAfterOwn), initializer after all definitions}             *)
 EXTENDS Integers, Sequences, FiniteSets, TLC, Json, CSV, IOUtils, SequencesExt
 
-CONSTANTS Mode, MaxLen, N, SelfLoops, InitAfterOwn, FreeKinds, Fixed, ResetCurFn, SkipSizeof, Emit
+CONSTANTS Mode, MaxLen, N, SelfLoops, InitAfterOwn, FreeKinds, Fixed, ResetCurFn, SkipSizeof, Emit,
+          Unb, Fixed5, AlignAtCreation, ReuseVisible
 
 Mx(a, b) == IF a > b THEN a ELSE b
 
 ----------------------------------------------------------------------------
 (* Object types: size, natural alignment, array?  *)
-Types == { [id |-> "int",    size |-> 4,  al |-> 4, arr |-> FALSE],
-           [id |-> "long",   size |-> 8,  al |-> 8, arr |-> FALSE],
-           [id |-> "char3",  size |-> 3,  al |-> 1, arr |-> TRUE],
-           [id |-> "char20", size |-> 20, al |-> 1, arr |-> TRUE] }
+Types == { [id |-> "int",    size |-> 4,  al |-> 4, arr |-> FALSE, el |-> 4],
+           [id |-> "long",   size |-> 8,  al |-> 8, arr |-> FALSE, el |-> 8],
+           [id |-> "char3",  size |-> 3,  al |-> 1, arr |-> TRUE,  el |-> 1],
+           [id |-> "char20", size |-> 20, al |-> 1, arr |-> TRUE,  el |-> 1] }
+(* the types of the family "objty" (Unb): arrays, whose bound a declarator may omit; el = element size *)
+UTypes == { [id |-> "int5",   size |-> 20, al |-> 4, arr |-> TRUE,  el |-> 4],
+            [id |-> "char20", size |-> 20, al |-> 1, arr |-> TRUE,  el |-> 1] }
+(* the types of the family "scope" *)
+STypes == { t \in Types : t.id \in {"int", "char20"} }
 TInt == CHOOSE t \in Types : t.id = "int"
 (* psABI: an array variable of at least 16 bytes is aligned to 16 (gcc does not
    apply this to thread-local arrays, so Level A only demands the natural
    alignment there; more alignment than demanded is always acceptable) *)
-VarAlign(t) == IF t.arr /\ t.size >= 16 THEN Mx(16, t.al) ELSE t.al
-VarAlignA(t, thr) == IF thr THEN t.al ELSE VarAlign(t)
+(* the rule on an object of array type t whose (final) size is sz and whose alignment is otherwise a *)
+VarAlignS(t, sz, a) == IF t.arr /\ sz >= 16 THEN Mx(16, a) ELSE a
+VarAlign(t) == VarAlignS(t, t.size, t.al)
 
 (* Events.  One record shape for all kinds.
    k = "obj":  ev in T   `ty x;`            D   `ty x = v;`      E `extern ty x;`
@@ -67,12 +97,20 @@ VarAlignA(t, thr) == IF thr THEN t.al ELSE VarAlign(t)
                      BE  block scope `extern ty x;` (inside a function that returns &x)
                      BS  block scope `static ty x;`    BSD  block scope `static ty x = v;`
                      R   a function that returns &x (a reference from emitted code)
-               (with tls = TRUE every one of them carries _Thread_local)
+                     F   a function with nested blocks: level j declares x as blk[j] in
+                         {"A" automatic, "P" parameter (level 1), "BS", "BSD", "BE"} and the function
+                         refers to x at level `at`
+               (with tls = TRUE every one of them carries _Thread_local - except A and P;
+                with aln > 0 every defining one carries _Alignas(aln);
+                ub = TRUE: the declarator omits the array bound, `T x[]`)
    k = "fn":   declaration/definition of function `name` with storage class
                sc in {none, static, extern}, inline specifier, and (for a
                definition) the set of functions its body references
    k = "init": a file-scope pointer-to-function object initialised with `name`                              *)
-ObjE(ev) == [k |-> "obj", name |-> "x", ev |-> ev, sc |-> "-", inl |-> FALSE, def |-> FALSE, refs |-> {}, urefs |-> {}]
+ObjE(ev) == [k |-> "obj", name |-> "x", ev |-> ev, sc |-> "-", inl |-> FALSE, def |-> FALSE, refs |-> {}, urefs |-> {},
+             ub |-> FALSE, blk |-> <<>>, at |-> 0]
+ObjU(ev) == [ObjE(ev) EXCEPT !.ub = TRUE]
+ObjF(blk, at) == [ObjE("F") EXCEPT !.blk = blk, !.at = at]
 (* A definition's body references the functions `refs` in POTENTIALLY EVALUATED expressions, all written in
    the way `kind` (field ev) says:
      "call"      r(d - 1) and a call through &r, alternating       (call, address-taking)
@@ -83,19 +121,31 @@ ObjE(ev) == [k |-> "obj", name |-> "x", ev |-> ev, sc |-> "-", inl |-> FALSE, de
    _Alignof(char[sizeof(u(d - 1))]).  C11 6.9p3 does not count those as a use of u. *)
 Kinds == {"call", "vlatype", "vlatype2", "vlabound"}
 SizeofKinds == {"vlatype", "vlatype2"}
+(* (fifth round) ... and through a BLOCK-SCOPE DECLARATION of the callee:
+     "blkcall"   { int r(int); v += r(d - 1); }
+     "hidcall"   { int r = d; { int r(int); v += r(d - 1); } v += r - d; }   behind an automatic object of that name
+   6.2.2p4/p5: the block-scope declaration denotes the function with linkage (behind an object without linkage it
+   has external linkage, so "hidcall" is only defined for a callee with external linkage, 6.2.2p7);
+   6.7.4p7 speaks of FILE-SCOPE declarations: a block-scope declaration without `inline` does not turn an inline
+   definition into an external one.  Level A needs no new rule: these are references, not elements of FDecls. *)
+BlockKinds == {"blkcall", "hidcall"}
 FnEK(n, sc, inl, def, refs, urefs, kind) ==
-  [k |-> "fn", name |-> n, ev |-> kind, sc |-> sc, inl |-> inl, def |-> def, refs |-> refs, urefs |-> urefs]
+  [k |-> "fn", name |-> n, ev |-> kind, sc |-> sc, inl |-> inl, def |-> def, refs |-> refs, urefs |-> urefs,
+   ub |-> FALSE, blk |-> <<>>, at |-> 0]
 FnE(n, sc, inl, def, refs) == FnEK(n, sc, inl, def, refs, {}, "call")
-InitE(n) == [k |-> "init", name |-> n, ev |-> "-", sc |-> "-", inl |-> FALSE, def |-> FALSE, refs |-> {}, urefs |-> {}]
+InitE(n) == [k |-> "init", name |-> n, ev |-> "-", sc |-> "-", inl |-> FALSE, def |-> FALSE, refs |-> {}, urefs |-> {},
+             ub |-> FALSE, blk |-> <<>>, at |-> 0]
 
 VARIABLES es,        \* the unit: events so far
           fcommon, ty, tls,   \* unit parameters: -fcommon?, type of x, _Thread_local on every declaration of x
+          aln,       \* unit parameter: 0, or the _Alignas(aln) carried by every defining declaration of x
           gl,        \* Level I: globals list of object Obj records, newest first
+          xref,      \* Level I: some emitted function refers to an Obj that is emitted as the symbol x
           fns,       \* Level I: function name -> Obj record
           cur,       \* Level I: current_fn ("" = NULL)
           inits,     \* Level I: targets of relocations in emitted data (file-scope initializers)
           st         \* generator bookkeeping (graph mode)
-vars == <<es, fcommon, ty, tls, gl, fns, cur, inits, st>>
+vars == <<es, fcommon, ty, tls, aln, gl, xref, fns, cur, inits, st>>
 
 (* symbol-table rows *)
 None == [st |-> "none", bind |-> "-", type |-> "-", sect |-> "-", size |-> 0, align |-> 0]
@@ -107,11 +157,36 @@ DefRow(bind, type, sect, size, align) ==
 ----------------------------------------------------------------------------
 (* ================= Level A: objects (C11 6.2.2, 6.9.2) ================= *)
 IsObj(e, evs) == e.k = "obj" /\ e.ev \in evs
-LinkDecls(s) == SelectSeq(s, LAMBDA e : IsObj(e, {"T", "D", "E", "ST", "SD", "BE"}))
+(* scopes (6.2.1p4): the declaration of x that is visible at level j of the nested blocks `blk` is
+   the one of level j itself - every level declares x, and an inner declaration hides the outer ones
+   until its block ends.  6.2.2p4: a block-scope `extern` declares the object with linkage; which
+   linkage is decided by the visible prior declaration ONLY IF THAT ONE HAS LINKAGE, so behind an
+   automatic object, a parameter or a block-scope static it is the external x.
+   "sym" = the object with linkage named x, "loc" = an object without linkage *)
+BindA(blk, j) == IF blk[j] = "BE" THEN "sym" ELSE "loc"
+HasBE(blk) == \E j \in DOMAIN blk : blk[j] = "BE"
+(* a block-scope extern behind a declaration without linkage: external linkage whatever the file scope says *)
+HiddenBE(blk) == \E j \in DOMAIN blk : blk[j] = "BE" /\ \E i \in 1..(j - 1) : blk[i] # "BE"
+IsF(e) == e.k = "obj" /\ e.ev = "F"
+LinkDecls(s) == SelectSeq(s, LAMBDA e : IsObj(e, {"T", "D", "E", "ST", "SD", "BE"}) \/ (IsF(e) /\ HasBE(e.blk)))
 InternalObj(s) == LET d == LinkDecls(s) IN Len(d) > 0 /\ d[1].ev \in {"ST", "SD"}    \* 6.2.2p3-p5
 HasInit(s) == \E i \in DOMAIN s : IsObj(s[i], {"D", "SD"})
 DefinedObj(s) == \E i \in DOMAIN s : IsObj(s[i], {"T", "D", "ST", "SD"})             \* 6.9.2p2
-ReferencedObj(s) == \E i \in DOMAIN s : IsObj(s[i], {"R", "BE"})
+ReferencedObj(s) == \E i \in DOMAIN s : IsObj(s[i], {"R", "BE"}) \/ (IsF(s[i]) /\ BindA(s[i].blk, s[i].at) = "sym")
+(* the type of x (6.2.7p4 composite type of the file-scope declarations, 6.7.9p22 completion by the
+   initializer; 6.9.2p2 + p5: a tentative definition whose type is still incomplete at the end of the
+   unit behaves as if it had the initializer {0}: one element) *)
+HasBound(s) == \/ \E i \in DOMAIN s : IsObj(s[i], {"T", "D", "E", "ST", "SD"}) /\ ~s[i].ub
+               \/ HasInit(s)
+SizeA(s) == IF ~ty.arr \/ HasBound(s) THEN ty.size ELSE ty.el
+(* (finding C15-R5-composite-array-type, repaired by fix-R5-composite-array-type) units in which a tentative
+   definition of x omits the bound and no initializer completes the type: chibicc emitted the tentative
+   definition it kept with ITS OWN incomplete type (size -1 x element size).  Flagged in the emitted cases so
+   that the replay classifies discrepancies on x in these units narrowly. *)
+KnownUnboundTentative(s) == ty.arr /\ ~HasInit(s) /\ \E i \in DOMAIN s : IsObj(s[i], {"T"}) /\ s[i].ub
+(* alignment demanded of an object of the unit's type whose size is sz: the psABI array rule (not demanded
+   of thread-local arrays: gcc does not apply it there), at least the _Alignas of its definition (6.7.5) *)
+AlignA(sz) == Mx(aln, IF tls THEN ty.al ELSE VarAlignS(ty, sz, ty.al))
 VisibleObj(s) == \E i \in DOMAIN s : IsObj(s[i], {"T", "D", "E", "ST", "SD"})
 
 (* may object event e follow s?  (constraints and undefined behaviour excluded:
@@ -121,6 +196,7 @@ ObjOK(s, e) ==
   CASE e.ev \in {"T", "D"}   -> (Len(d) = 0 \/ ~InternalObj(s)) /\ (e.ev = "D" => ~HasInit(s))
     [] e.ev \in {"ST", "SD"} -> (Len(d) = 0 \/ InternalObj(s)) /\ (e.ev = "SD" => ~HasInit(s))
     [] e.ev = "R"            -> VisibleObj(s)
+    [] e.ev = "F"            -> HiddenBE(e.blk) => ~InternalObj(s)       \* 6.2.2p7: internal and external linkage
     [] OTHER                 -> TRUE
 
 RowObjA(s) ==
@@ -129,28 +205,55 @@ RowObjA(s) ==
            sect == IF tls THEN (IF HasInit(s) THEN "tdata" ELSE "tbss")
                    ELSE IF HasInit(s) THEN "data"
                    ELSE IF fcommon /\ ~int THEN "common" ELSE "bss"
-       IN DefRow(IF int THEN "LOCAL" ELSE "GLOBAL", IF tls THEN "TLS" ELSE "OBJECT", sect, ty.size, VarAlignA(ty, tls))
+       IN DefRow(IF int THEN "LOCAL" ELSE "GLOBAL", IF tls THEN "TLS" ELSE "OBJECT", sect, SizeA(s), AlignA(SizeA(s)))
 
 (* objects with no linkage and static storage duration (6.2.2p6, 6.2.4p3): one
    anonymous local object per block-scope `static` declaration *)
+IsBS(b) == b \in {"BS", "BSD"}
+AnonEvs(s) == FoldLeft(LAMBDA acc, e : acc \o (IF IsObj(e, {"BS", "BSD"}) THEN <<e.ev>>
+                                               ELSE IF IsF(e) THEN SelectSeq(e.blk, IsBS) ELSE <<>>), <<>>, s)
 AnonA(s) ==
-  LET b == SelectSeq(s, LAMBDA e : IsObj(e, {"BS", "BSD"}))
-  IN [i \in DOMAIN b |-> [sect |-> IF tls THEN (IF b[i].ev = "BSD" THEN "tdata" ELSE "tbss")
-                                   ELSE (IF b[i].ev = "BSD" THEN "data" ELSE "bss"),
-                          size |-> ty.size]]
+  LET b == AnonEvs(s)
+  IN [i \in DOMAIN b |-> [sect |-> IF tls THEN (IF b[i] = "BSD" THEN "tdata" ELSE "tbss")
+                                   ELSE (IF b[i] = "BSD" THEN "data" ELSE "bss"),
+                          size |-> ty.size, align |-> AlignA(ty.size)]]
 
 (* ================= Level I: objects ================= *)
-(* global_variable() (file scope and block-scope extern) / declaration() (block-scope static) *)
-NewObjI(e) ==
-  LET tent == IF Fixed THEN TRUE ELSE ~tls        \* pinned: `else if (!attr->is_extern && !attr->is_tls)`
-      O(name, def, static, t, init) == [name |-> name, def |-> def, static |-> static, tent |-> t, init |-> init]
-  IN CASE e.ev = "T"  -> O("x", TRUE, FALSE, tent, FALSE)
-       [] e.ev = "D"  -> O("x", TRUE, FALSE, FALSE, TRUE)
-       [] e.ev \in {"E", "BE"} -> O("x", FALSE, FALSE, FALSE, FALSE)
-       [] e.ev = "ST" -> O("x", TRUE, TRUE, tent, FALSE)
-       [] e.ev = "SD" -> O("x", TRUE, TRUE, FALSE, TRUE)
-       [] e.ev = "BS" -> O(".L" \o ToString(Len(gl)), TRUE, TRUE, FALSE, FALSE)      \* new_anon_gvar
-       [] e.ev = "BSD" -> O(".L" \o ToString(Len(gl)), TRUE, TRUE, FALSE, TRUE)
+(* global_variable() (file scope and block-scope extern) / declaration() (block-scope static): one Obj.
+   size0 = the size of the declared type at new_gvar()/new_anon_gvar() time (-1: array of unknown bound),
+   size  = the size of the Obj's OWN type once the declaration is parsed (gvar_initializer replaces var->ty by
+           the type the initializer completed),
+   al    = var->align: the element alignment, or the _Alignas of the declaration (pinned: not for block-scope
+           statics).  AlignAtCreation (seeded C15-9): the psABI array rule folded in here, on size0. *)
+NewObjI(e, anonname) ==
+  LET tent  == IF Fixed THEN TRUE ELSE ~tls        \* pinned: `else if (!attr->is_extern && !attr->is_tls)`
+      init  == e.ev \in {"D", "SD", "BSD"}
+      size0 == IF ty.arr /\ e.ub THEN -1 ELSE ty.size
+      size  == IF init THEN ty.size ELSE size0
+      al0   == IF aln > 0 /\ e.ev \notin {"E", "BE"} /\ (e.ev \in {"BS", "BSD"} => Fixed5) THEN aln ELSE ty.al
+      al    == IF AlignAtCreation THEN VarAlignS(ty, size0, al0) ELSE al0
+      O(name, def, static, t) == [name |-> name, def |-> def, static |-> static, tent |-> t, init |-> init,
+                                  size |-> size, al |-> al]
+  IN CASE e.ev = "T"  -> O("x", TRUE, FALSE, tent)
+       [] e.ev = "D"  -> O("x", TRUE, FALSE, FALSE)
+       [] e.ev \in {"E", "BE"} -> O("x", FALSE, FALSE, FALSE)
+       [] e.ev = "ST" -> O("x", TRUE, TRUE, tent)
+       [] e.ev = "SD" -> O("x", TRUE, TRUE, FALSE)
+       [] e.ev \in {"BS", "BSD"} -> O(anonname, TRUE, TRUE, FALSE)      \* new_anon_gvar
+
+(* find_var(): the scope chain.  Level j of the nested blocks holds one VarScope for x; a block-scope
+   extern is a fresh Obj named x without definition (global_variable), so a reference to it is a reference to
+   the symbol x.  ReuseVisible (seeded C15-8): a block-scope extern reuses the Obj of whatever declaration of
+   the name find_var() returns, provided the type kinds agree (a parameter of array type is a pointer). *)
+RECURSIVE BindI(_, _)
+BindI(blk, j) == IF blk[j] # "BE" THEN "loc"
+                 ELSE IF ReuseVisible /\ j > 1 /\ BindI(blk, j - 1) = "loc" /\ ~(blk[j - 1] = "P" /\ ty.arr) THEN "loc"
+                 ELSE "sym"
+(* the Objs (newest first) a function with nested blocks adds to the globals list *)
+FObjsI(e) == FoldLeft(LAMBDA acc, j :
+                        IF e.blk[j] \in {"BS", "BSD"} \/ (e.blk[j] = "BE" /\ BindI(e.blk, j) = "sym")
+                        THEN <<NewObjI([e EXCEPT !.ev = e.blk[j]], ".L" \o ToString(Len(gl) + j))>> \o acc ELSE acc,
+                      <<>>, [j \in 1..Len(e.blk) |-> j])
 
 (* scan_globals(): indices of gl that survive.  Pinned: a tentative definition
    is dropped when ANY other definition of the name exists — including another
@@ -161,25 +264,32 @@ NewObjI(e) ==
 KeptI == { i \in DOMAIN gl :
            ~(gl[i].tent /\ \E j \in DOMAIN gl : /\ j # i /\ gl[j].def /\ gl[j].name = gl[i].name
                                                  /\ (Fixed => (~gl[j].tent \/ j < i))) }
-(* emit_data() for one Obj *)
+(* emit_data() for one Obj.  The size is the one of var->ty; repaired (Fixed5): an Obj whose own type is an
+   array of unknown bound has got the composite type before (any declaration of the name with a complete
+   type; a tentative definition with none: one element).  The psABI array rule is applied here, on that type. *)
 DataRowI(o) ==
   LET viaComm == fcommon /\ o.tent /\ ~tls                      \* `.comm` (repaired: never for TLS)
       sect    == IF viaComm THEN (IF o.static THEN "bss" ELSE "common")   \* .local + .comm = .bss
                  ELSE IF o.init THEN (IF tls THEN "tdata" ELSE "data")
                  ELSE (IF tls THEN "tbss" ELSE "bss")
       sized   == viaComm \/ o.init \/ Fixed                      \* pinned: no .type/.size on the .bss/.tbss path
+      fsize   == IF o.size >= 0 THEN o.size
+                 ELSE IF ~Fixed5 THEN -1
+                 ELSE IF \E j \in DOMAIN gl : gl[j].name = o.name /\ gl[j].size >= 0 THEN ty.size
+                 ELSE IF o.tent THEN ty.el ELSE -1
+      align   == IF AlignAtCreation THEN o.al ELSE VarAlignS(ty, fsize, o.al)
   IN DefRow(IF o.static THEN "LOCAL" ELSE "GLOBAL",
             IF tls THEN "TLS" ELSE IF sized THEN "OBJECT" ELSE "NOTYPE",
-            sect, IF sized THEN ty.size ELSE 0, VarAlign(ty))
+            sect, IF sized THEN fsize ELSE 0, align)
 RowObjI ==
   LET rows == { i \in KeptI : gl[i].def /\ gl[i].name = "x" }
-  IN IF rows = {} THEN (IF ReferencedObj(es) THEN Und ELSE None)       \* the reference is a syntactic fact of the unit
+  IN IF rows = {} THEN (IF xref THEN Und ELSE None)       \* referenced by emitted code through an Obj named x?
      ELSE IF Cardinality(rows) > 1 THEN Dup
      ELSE DataRowI(gl[CHOOSE i \in rows : TRUE])
 AnonI ==
   LET idx == SelectSeq([i \in 1..Len(gl) |-> Len(gl) + 1 - i],          \* creation order
                        LAMBDA i : i \in KeptI /\ gl[i].name # "x" /\ gl[i].def)
-  IN [k \in DOMAIN idx |-> LET r == DataRowI(gl[idx[k]]) IN [sect |-> r.sect, size |-> ty.size]]
+  IN [k \in DOMAIN idx |-> LET r == DataRowI(gl[idx[k]]) IN [sect |-> r.sect, size |-> ty.size, align |-> r.align]]
 
 ----------------------------------------------------------------------------
 (* ================= Level A: functions (6.2.2, 6.7.4, 6.9) ================= *)
@@ -214,6 +324,7 @@ FnOK(s, e) ==                           \* may fn event e follow s?
   /\ e.def => ~HasDef(s, e.name)                                           \* 6.9p3/p5
   /\ e.sc = "static" => (Len(FDecls(s, e.name)) = 0 \/ InternalFn(s, e.name))  \* 6.2.2p7
   /\ e.refs \cup e.urefs \subseteq FNames(s) \cup {e.name}                    \* declared before use
+  /\ e.ev = "hidcall" => \A r \in e.refs : ~InternalFn(s, r)                  \* 6.2.2p7
 InitOK(s, e) == e.name \in FNames(s)
 
 (* a unit is judged when it is a valid complete unit: every inline function is
@@ -248,6 +359,9 @@ Match(i, a) == CASE a.st \in {"nonglobal"} -> i.st \in {"none", "und"} \/ (i.st 
    `inline` and a later `extern`/non-inline declaration did not undo it.  The units of this
    class are flagged in the emitted cases so that the replay classifies them narrowly. *)
 KnownInlineExt(s, n) == Len(FDecls(s, n)) > 0 /\ ExtDef(s, n) /\ FDecls(s, n)[1].inl /\ FDecls(s, n)[1].sc = "none"
+(* functions that are also declared in a block scope (flagged in the emitted cases: the replay classifies
+   discrepancies on them narrowly) *)
+BlockDeclared(s, n) == \E i \in DOMAIN s : s[i].k = "fn" /\ s[i].def /\ s[i].ev \in BlockKinds /\ n \in s[i].refs
 
 (* ================= Level I: functions ================= *)
 (* function(): find_func / new_gvar, attribute merging, is_root, current_fn *)
@@ -265,9 +379,19 @@ FnStepI(e) ==
       (* primary() books EVERY identifier that names a function on current_fn = fn, whatever the
          context.  SkipSizeof = TRUE is a parser that skips the booking inside the operands of
          sizeof/_Alignof (seeded change C15-4): right for urefs, wrong for VLA type names *)
-      booked == IF SkipSizeof THEN (IF e.ev \in SizeofKinds THEN {} ELSE e.refs) ELSE e.refs \cup e.urefs
+      booked == IF SkipSizeof THEN (IF e.ev \in SizeofKinds THEN {} ELSE e.refs)
+                ELSE e.refs \cup e.urefs
+      (* function() is also called for a block-scope declaration `int r(int);`: it found the Obj of r.  Before the
+         fifth-round repair it applied the 6.7.4p7 rule there too (a declaration without `inline`...), making an
+         inline definition external and a root (finding C15-R5-block-declaration-makes-inline-external).
+         (It also did not enter the declaration into the block's scope, so that behind an object of the same name
+         the call was rejected as "not a function": finding C15-R5-block-function-declaration-hidden; a rejected
+         unit has no Level I, the replay reports it.) *)
+      blk(n) == e.def /\ e.ev \in BlockKinds /\ n \in e.refs /\ n # e.name /\ ~Fixed5 /\ fns[n].ionly
       f2  == IF e.def THEN [f1 EXCEPT !.refs = @ \cup booked] ELSE f1
-  IN /\ fns' = [n \in DOMAIN fns \cup {e.name} |-> IF n = e.name THEN f2 ELSE fns[n]]
+  IN /\ fns' = [n \in DOMAIN fns \cup {e.name} |-> IF n = e.name THEN f2
+                                                    ELSE IF blk(n) THEN [fns[n] EXCEPT !.ionly = FALSE, !.static = FALSE, !.root = TRUE]
+                                                    ELSE fns[n]]
      /\ cur' = IF e.def THEN (IF Fixed /\ ResetCurFn THEN "" ELSE e.name) ELSE cur   \* repaired: current_fn = NULL after the body
      /\ UNCHANGED <<gl, inits>>
 (* gvar_initializer -> primary(): booked on current_fn if set, else the target becomes a root *)
@@ -287,28 +411,33 @@ RowFnI(n) == IF n \in EmittedI THEN DefRow(IF fns[n].static THEN "LOCAL" ELSE "G
              ELSE IF n \in RefdByEmittedI THEN Und ELSE None
 
 ----------------------------------------------------------------------------
-Case(s) == [mode |-> Mode, fcommon |-> fcommon, ty |-> ty.id, tls |-> tls, es |-> s,
-            objrow |-> IF Mode = "obj" THEN RowObjA(s) ELSE None,
-            anon |-> IF Mode = "obj" THEN AnonA(s) ELSE <<>>,
+Case(s) == [mode |-> IF Mode = "scope" THEN "obj" ELSE Mode, fcommon |-> fcommon, ty |-> ty.id, tls |-> tls, aln |-> aln, es |-> s,
+            objrow |-> IF Mode \in {"obj", "scope"} THEN RowObjA(s) ELSE None,
+            objcls |-> IF Mode = "obj" /\ KnownUnboundTentative(s) THEN "tentative-array-of-unknown-bound" ELSE "",
+            anon |-> IF Mode \in {"obj", "scope"} THEN AnonA(s) ELSE <<>>,
             fnrows |-> LET reach == ReachA(s)
                            may   == MayA(s)
-                       IN { [name |-> n, row |-> RowFnA3(s, n, reach, may), known |-> KnownInlineExt(s, n)] : n \in FNames(s) }]
-Out(s) == (Emit /\ JudgedFn(s)) => CSVWrite("%1$s", <<ToJson(Case(s))>>, IOEnv.OUT)
+                       IN { [name |-> n, row |-> RowFnA3(s, n, reach, may), known |-> KnownInlineExt(s, n), blk |-> BlockDeclared(s, n)] : n \in FNames(s) }]
+HasF(s) == \E i \in DOMAIN s : IsF(s[i])
+Out(s) == (Emit /\ JudgedFn(s) /\ (Mode = "scope" => HasF(s))) => CSVWrite("%1$s", <<ToJson(Case(s))>>, IOEnv.OUT)
 
 StepObj(e) == /\ es' = Append(es, e)
-              /\ gl' = IF e.ev = "R" THEN gl ELSE <<NewObjI(e)>> \o gl
-              /\ UNCHANGED <<fcommon, ty, tls, fns, cur, inits, st>>
+              /\ gl' = CASE e.ev = "R" -> gl
+                         [] e.ev = "F" -> FObjsI(e) \o gl
+                         [] OTHER      -> <<NewObjI(e, ".L" \o ToString(Len(gl)))>> \o gl
+              /\ xref' = (xref \/ e.ev \in {"R", "BE"} \/ (e.ev = "F" /\ BindI(e.blk, e.at) = "sym"))
+              /\ UNCHANGED <<fcommon, ty, tls, aln, fns, cur, inits, st>>
               /\ Out(es')
 StepFn(e, st2) == /\ es' = Append(es, e)
                   /\ IF e.k = "fn" THEN FnStepI(e) ELSE InitStepI(e)
                   /\ st' = st2
-                  /\ UNCHANGED <<fcommon, ty, tls>>
+                  /\ UNCHANGED <<fcommon, ty, tls, aln, xref>>
                   /\ Out(es')
 
 Idx == ToString(Len(es) + 1)
 FnAlphabet ==
   { FnE("f", sc, inl, def, {}) : sc \in {"none", "static", "extern"}, inl \in BOOLEAN, def \in BOOLEAN }
-  \cup { FnEK("r" \o Idx, "none", FALSE, TRUE, {"f"}, {}, k) : k \in Kinds }   \* a global function referencing f, in each way: a root
+  \cup { FnEK("r" \o Idx, "none", FALSE, TRUE, {"f"}, {}, k) : k \in Kinds \cup BlockKinds }   \* a global function referencing f, in each way: a root
   \cup { FnEK("v" \o Idx, "none", FALSE, TRUE, {}, {"f"}, "call"),               \* a global function naming f in unevaluated operands only
          FnE("u" \o Idx, "static", TRUE, TRUE, {"f"}),     \* an unreferenced static inline calling f: NOT a root
          InitE("f") }                                       \* a file-scope initializer naming f: a root
@@ -337,14 +466,32 @@ GraphNext ==
      /\ \E R \in SUBSET ((1..N) \ st.rooted), kd \in (IF N <= 3 THEN {"call", "vlatype"} ELSE {"vlatype"}) :
           StepFn(FnEK("user", "none", FALSE, TRUE, {S(j) : j \in R}, {}, kd), [st EXCEPT !.ph = "done"])
 
-Init == /\ es = <<>> /\ gl = <<>> /\ fns = [n \in {} |-> 0] /\ cur = "" /\ inits = {}
+(* family "objty" (Mode = "obj", Unb): declarations with (ObjE) and without (ObjU) the array bound; a tentative
+   definition with internal linkage and a block-scope static without initializer must be complete (6.9.2p3,
+   6.7p7); block-scope externs always omit the bound here (whether a bound that only a block-scope
+   declaration gives completes the file-scope type is not judged) *)
+ObjAlphabet == IF Unb THEN { ObjE(ev) : ev \in {"T", "D", "E", "ST", "SD", "BS", "BSD"} }
+                           \cup { ObjU(ev) : ev \in {"T", "D", "E", "SD", "BE", "BSD"} }
+               ELSE { ObjE(ev) : ev \in {"T", "D", "E", "ST", "SD", "BE", "BS", "BSD", "R"} }
+(* family "scope": one function with two nested levels, between at most one file-scope declaration before
+   and one file-scope declaration or reference after it *)
+FAlphabet == { ObjF(<<o, i>>, a) : o \in {"A", "P", "BS", "BSD", "BE"}, i \in {"BE", "BS", "A"}, a \in 1..2 }
+ScopeNext ==
+  \/ /\ es = <<>> /\ \E ev \in {"T", "D", "E", "ST", "SD"} : StepObj(ObjE(ev))
+  \/ /\ ~HasF(es) /\ \E e \in FAlphabet : ObjOK(es, e) /\ StepObj(e)
+  \/ /\ es # <<>> /\ IsF(es[Len(es)])
+     /\ \E ev \in {"T", "D", "E", "ST", "SD", "R"} : ObjOK(es, ObjE(ev)) /\ StepObj(ObjE(ev))
+
+Init == /\ es = <<>> /\ gl = <<>> /\ fns = [n \in {} |-> 0] /\ cur = "" /\ inits = {} /\ xref = FALSE
         /\ st = [ph |-> IF N > 0 THEN "proto" ELSE "done", d |-> 0, c |-> 1, rooted |-> {}, fresh |-> FALSE]
-        /\ IF Mode = "obj" THEN fcommon \in BOOLEAN /\ ty \in Types /\ tls \in BOOLEAN
-           ELSE fcommon = TRUE /\ ty = TInt /\ tls = FALSE
+        /\ IF Mode = "obj" THEN /\ fcommon \in BOOLEAN /\ tls \in BOOLEAN
+                                /\ IF Unb THEN ty \in UTypes /\ aln \in (IF tls THEN {0} ELSE {0, 32}) ELSE ty \in Types /\ aln = 0
+           ELSE IF Mode = "scope" THEN fcommon \in BOOLEAN /\ tls \in BOOLEAN /\ ty \in STypes /\ aln = 0
+           ELSE fcommon = TRUE /\ ty = TInt /\ tls = FALSE /\ aln = 0
 
 Next == \/ /\ Mode = "obj" /\ Len(es) < MaxLen
-           /\ \E ev \in {"T", "D", "E", "ST", "SD", "BE", "BS", "BSD", "R"} :
-                ObjOK(es, ObjE(ev)) /\ StepObj(ObjE(ev))
+           /\ \E e \in ObjAlphabet : ObjOK(es, e) /\ StepObj(e)
+        \/ Mode = "scope" /\ ScopeNext
         \/ /\ Mode = "fn" /\ Len(es) < MaxLen
            /\ \E e \in FnAlphabet : /\ IF e.k = "fn" THEN FnOK(es, e) ELSE InitOK(es, e)
                                     /\ StepFn(e, st)
@@ -358,7 +505,9 @@ Spec == Init /\ [][Next]_vars
 RowsAgree(i, a) == /\ [i EXCEPT !.align = 0] = [a EXCEPT !.align = 0]
                    /\ a.sect = "common" => i.align = a.align
                    /\ a.st = "def" => i.align % a.align = 0
-ObjRefines == Mode = "obj" => (RowsAgree(RowObjI, RowObjA(es)) /\ AnonI = AnonA(es))
+AnonAgree(i, a) == /\ Len(i) = Len(a)
+                   /\ \A k \in DOMAIN i : i[k].sect = a[k].sect /\ i[k].size = a[k].size /\ i[k].align % a[k].align = 0
+ObjRefines == Mode \in {"obj", "scope"} => (RowsAgree(RowObjI, RowObjA(es)) /\ AnonAgree(AnonI, AnonA(es)))
 FnRefines  == JudgedFn(es) =>
                 LET reach == ReachA(es)              \* evaluated once per state
                     may   == MayA(es)
